@@ -198,7 +198,7 @@ def run(P, R):
     R.check(r4, ok, 'pid 0 drops the history of that process on that instance', 'drop|holder', hp.loc(),
             'ProcStatisticsHolder.push_statistics pops under %s' % [sorted(tuple(f) for f in fm.at(c)) for c in pops])
     mk = [a for a in own_nodes(hp.node) if isinstance(a, ast.Assign) and ast.unparse(a.targets[0]) == 'self.instance_map[identifier]']
-    ok = len(mk) == 1 and any(f[1] and f[0] == 'not identifier_instance or pid != ref_pid' for f in fm.at(mk[0]))
+    ok = len(mk) == 1 and any(not f[1] and f[0] == 'identifier_instance and pid == ref_pid' for f in fm.at(mk[0]))
     R.check(r4, ok, 'a new PID starts a fresh history', 'drop|pid-change', hp.loc(),
             'ProcStatisticsHolder.push_statistics does not restart the history under `not identifier_instance or pid != '
             'ref_pid`')
@@ -219,7 +219,7 @@ def run(P, R):
     un = [a for a in own_nodes(up.node) if isinstance(a, ast.Assign) and isinstance(a.targets[0], ast.Tuple)
           and ast.unparse(a.value) == 'found']
     ok = len(pops) == 1 and len(un) == 1 and [ast.unparse(a) for a in pops[0].args] == [ast.unparse(un[0].targets[0].elts[0])] \
-        and any(f[1] and f[0] == "proc_stats['process'].pid != pid" for f in fm.at(pops[0]))
+        and any(not f[1] and f[0] == "proc_stats['process'].pid == pid" for f in fm.at(pops[0]))
     R.check(r4, ok, 'the collector removes the very entry it found for that namespec', 'drop|collector', up.loc(),
             'update_process_list pops %s: another process than the one whose PID changed is evicted and its stop is '
             'never published' % [ast.unparse(c) for c in pops])
